@@ -26,10 +26,10 @@ LEVEL_NOTE = ("Trusted: Coq kernel, translator (ArchiveFileSuffix, hash.StringLe
               "AES-256-GCM, base64.RawURLEncoding (fields are modelled after decoding: its padding-bit and newline malleability yields the same bytes and "
               "the same request), url.Values parsing, URL.String/url.Parse (escape, './' guard, fragment cut, control bytes; scheme detection omitted), "
               "time.Now at millisecond resolution, os.Stat/MkdirAll (NUL and NAME_MAX only), NBS store creation (observed: only the table file appears).")
-THEOREMS = ["grpc_confined", "oracle_on_model_confinement", "unseal_seal", "unseal_sound", "tamper_rejected", "forged_payload_rejected", "window_enforced", "get_confined", "post_confined_guarded",
-            "post_confined_refuted", "unseal_seal_escaped_refuted", "tamper_path_escaped_refuted", "parse_fmt_int"]
-REFUTED = ["post_confined for the POST/PUT branch as it was before the fix (no clean-and-reject; F4): post_confined_refuted — the guarded branch is proved by post_confined_guarded", "unseal_seal for paths that need percent-encoding: unseal_seal_escaped_refuted",
-           "tamper_rejected(path) for paths that need percent-encoding: tamper_path_escaped_refuted"]
+THEOREMS = ["unseal_seal_residual_refuted", "grpc_confined", "oracle_on_model_confinement", "unseal_seal", "unseal_sound", "tamper_rejected", "forged_payload_rejected", "window_enforced", "get_confined", "post_confined_guarded",
+            "post_confined_refuted", "parse_fmt_int"]
+REFUTED = ["post_confined for the POST/PUT branch as it was before the fix (no clean-and-reject; F4): post_confined_refuted — the guarded branch is proved by post_confined_guarded", "unseal_seal for a relative path with ':' in its first segment and for a path beginning with exactly '//': unseal_seal_residual_refuted (open; "
+           "paths that need percent-encoding round-trip since f75d72f: unseal_seal is proved for every byte-string path outside these two classes)"]
 RULE = ("seal cases: URL paths (plain repo/hash paths, dot segments, doubled slashes, bytes that need percent-encoding, literal %2f, first-segment colon) x "
         "url-encoded queries x one mutation of the sealed URL (none, path, req dropped/garbled/bit-flipped/swapped with another sealed URL's, nonce "
         "changed/short/long/not base64, nbf/exp shifted/reformatted/dropped, window forged before/after now); handle cases: request paths built from "
@@ -40,7 +40,7 @@ ASSUMPTIONS = ["RawQuery of sealed URLs is a well-formed query string (no '#', n
                "lexical confinement: no symbolic links below the root (the model resolves paths as POSIX does without links)",
                "the DBCache is the standalone server's LocalCSCache (reproduced in the harness: package main cannot be imported)",
                "temporary files the NBS layer may create under os.TempDir are not counted as handler writes"]
-REQUIRED_TAGS = ["reg-grpc-escape-rejected", "reg-post-escape-rejected", "grpc-ok", "grpc-dotdot", "grpc-absolute", "grpc-repo-id", "seal-ok", "seal-rej-path", "seal-rej-open", "seal-rej-window", "seal-panic-nonce", "seal-nonplain", "get-200", "get-400", "get-404",
+REQUIRED_TAGS = ["reg-escaped-path-roundtrips", "double-slash-guard", "reg-grpc-escape-rejected", "reg-post-escape-rejected", "grpc-ok", "grpc-dotdot", "grpc-absolute", "grpc-repo-id", "seal-ok", "seal-rej-path", "seal-rej-open", "seal-rej-window", "seal-panic-nonce", "seal-nonplain", "get-200", "get-400", "get-404",
                  "post-200", "post-404", "post-dotdot", "mode-sealed", "mode-raw", "nul", "longname"]
 COQ_SHARD = 600
 
@@ -136,16 +136,39 @@ def _escape(p):
     return b"".join(bytes([c]) if _plain_byte(c) else b"%%%02X" % c for c in p)
 
 
-def _plain_path(p):
-    if any(not _plain_byte(c) for c in p):
-        return p == b"*"
+def _sealable(p):
+    """paths the (repaired) sealer round-trips: everything except a relative path with ':' in its first segment and a path
+    that begins with exactly two slashes"""
     if p.startswith(b"//") and not p.startswith(b"///"):
         return False
     return p.startswith(b"/") or b":" not in p.split(b"/")[0]
 
 
+def _plain_path(p):
+    if any(not _plain_byte(c) for c in p):
+        return p == b"*"
+    return _sealable(p)
+
+
 DOTS = [b"..", b".", b""]
 NAMES = [b"org", b"repo", b"x", b"solo", b"out", b"rootx", b"empty", b"new", b"%2e%2e", b"..\\", b"\\", b"...", b".. ", b"a..b"]
+
+
+GUARD = b"tmp/c39-abs-guard"
+
+
+def _guard_leading_slashes(p, mode):
+    """A path with two or more leading slashes would be an absolute path for a server that trims only one of them:
+    such paths always continue with the guard directory (the harness maps it to a per-process directory under /tmp and
+    watches it) and carry no '..'; the raw-target mode gets a single slash."""
+    rest = p.lstrip(b"/")
+    n = len(p) - len(rest)
+    if n < 2:
+        return p
+    if mode == 2 or LONG in rest or b"\x00" in rest:
+        return b"/" + rest          # (names the OS refuses must stay the first new path component, see gen_handle)
+    rest = b"/".join(s for s in rest.split(b"/") if s != b"..")
+    return b"/" * n + GUARD + b"/" + rest
 
 
 def gen_handle(rng):
@@ -176,6 +199,7 @@ def gen_handle(rng):
     while sum(1 for s in segs if s == b"..") > 4:
         segs.remove(b"..")
     p = b"/" * rng.choice([1, 1, 1, 2, 0]) + b"/".join(segs)
+    p = _guard_leading_slashes(p, mode)
     if mode == 2:
         # raw request target: percent-encode some dots and separators; must start with '/'
         raw = b""
@@ -244,7 +268,9 @@ FIXED_HANDLE = [("POST", 0, b"/../x/" + HN[0]), ("PUT", 0, b"/../x/" + HN[0]), (
                 ("GET", 0, b""), ("POST", 0, b"/" + HN[0]), ("POST", 1, b"/../x/" + HN[0]), ("POST", 1, b"org/repo/" + HN[0]), ("GET", 1, b"org/repo/" + H1),
                 ("POST", 2, b"/%2e%2e/x/" + HN[0]), ("POST", 2, b"/org%2f..%2f..%2fx/" + HN[0]), ("GET", 2, b"/org/repo/%2e%2e/%2e%2e/%2e%2e/out/" + H1),
                 ("GET", 0, b"/a\x00b/" + H1), ("GET", 0, b"/" + LONG + b"/" + H1), ("POST", 0, b"/a\x00b/" + HN[0]), ("POST", 0, b"/" + LONG + b"/" + HN[0]),
-                ("GET", 1, b"a b/" + H1), ("DELETE", 0, b"/org/repo/" + H1)]
+                ("GET", 1, b"a b/" + H1), ("DELETE", 0, b"/org/repo/" + H1),
+                ("PUT", 0, b"//" + GUARD + b"/solo/" + HN[0]), ("POST", 0, b"///" + GUARD + b"/new/repo/" + HN[1]), ("GET", 0, b"//" + GUARD + b"/org/repo/" + H1),
+                ("PUT", 1, b"///" + GUARD + b"/solo/" + HN[0])]
 FIXED_SEAL = [({"path": list(b"org/repo/" + H1), "query": list(QUERIES[1])}, {"t": "none"}),
               ({"path": list(b"a b/c"), "query": list(QUERIES[1])}, {"t": "none"}),
               ({"path": list(b"a b/c"), "query": list(QUERIES[1])}, {"t": "path", "p": list(b"/single_symmetric_key_sealed_request/a%2520b/c")}),
@@ -399,6 +425,10 @@ def classify(case, out):
         t.append("seal-mut-" + case["mut"]["t"])
         if not _plain_path(p):
             t.append("seal-nonplain")
+            if _sealable(p) and case["mut"]["t"] == "none" and r["k"] == "ok":
+                t.append("reg-escaped-path-roundtrips")
+        if not _sealable(p):
+            t.append("seal-residual-class")
         if r["k"] == "ok":
             t.append("seal-ok")
         elif r["k"] == "panic":
@@ -436,6 +466,8 @@ def classify(case, out):
         t.append("longname")
     if b"//" in p:
         t.append("double-slash")
+    if p.startswith(b"//") and GUARD in p:
+        t.append("double-slash-guard")
     if _outside(o):
         t.append("OUTSIDE-ROOT")
     if m in ("POST", "PUT") and p == b"/../x/" + HN[0] and case["mode"] == 0 and o["status"] == 400 and not o.get("touched"):
@@ -456,10 +488,10 @@ def nontrivial(case, out):
 def match_known(finding, case, out):
     o = out.get("obs") or {}
     key = finding.get("key", "")
-    if key == "remotesrv.sealer:escaped-path-roundtrip":
-        # Seal puts EscapedPath() into the sealed request URI (escaped once more by String()), Unseal compares the
-        # visible path with the *re-escaped* path: paths that need percent-encoding do not round-trip
-        return case.get("kind") == "seal" and not _plain_path(bytes(case["u"]["path"]))
+    if key == "remotesrv.sealer:relative-colon-or-double-slash-path":
+        # residual of the sealer finding after f75d72f: URL.String writes "./a:b/…" for a relative path whose first segment
+        # contains ':', and url.Parse reads "//x/…" as an authority: Unseal rejects the URL Seal issued
+        return case.get("kind") == "seal" and not _sealable(bytes(case["u"]["path"]))
     return False
 
 
